@@ -58,13 +58,13 @@ Proof.
   destruct (participating s); auto.
 Qed.
 
-Lemma reset_core h r s : GM s ->
+Lemma reset_core h r s : hsub s /\ run s = Idle ->
   let x := reset h r s in
   fl x = Go /\ nt (st x) /\ propOut (st x) <> 1 /\ run (st x) = Idle /\ rH (rl (st x)) = h /\ rR (rl (st x)) = r /\
   pendAct (st x) = pendAct s /\ rOut (rl (st x)) = rOut (rl s) /\ rS (rl (st x)) = rS (rl s) /\
   Forall Po (ou x).
 Proof.
-  intros (Hs & O & R). unfold reset, cancel_timer, withS.
+  intros (Hs & R). unfold reset, cancel_timer, withS.
   assert (PO : forall p, (if p =? 1 then 2 else p) <> 1).
   { intros p. destruct (p =? 1) eqn:E; [discriminate|]. apply N.eqb_neq. exact E. }
   unfold bindM, say, upd, updr, ret, st, fl, ou, nt.
@@ -77,7 +77,7 @@ Qed.
 
 Definition RQ (s : sm) : Prop := nt s /\ propOut s <> 1 /\ run s = Idle.
 
-Lemma tr_reset_eq s0 h r : GM s0 ->
+Lemma tr_reset_eq s0 h r : hsub s0 /\ run s0 = Idle ->
   tr (eq s0) (reset h r) (fun s => RQ s /\ rH (rl s) = h /\ rR (rl s) = r /\
      pendAct s = pendAct s0 /\ rOut (rl s) = rOut (rl s0) /\ rS (rl s) = rS (rl s0)).
 Proof.
@@ -88,7 +88,7 @@ Qed.
 
 Lemma tr_reset h r : tr GM (reset h r) RQ.
 Proof.
-  intros s H. destruct (tr_reset_eq s h r H s eq_refl) as [Q F]. split; [|exact F].
+  intros s (H1 & H2 & H3). destruct (tr_reset_eq s h r (conj H1 H3) s eq_refl) as [Q F]. split; [|exact F].
   destruct (fl (reset h r s)); simpl in *; tauto.
 Qed.
 
